@@ -334,10 +334,14 @@ Definition handle (cf : cfg) (others : list session) (c : N) (r : req) (s : sess
           let s2 := upd_state s1 Record in
           match stransport s with
           | None =>
-              (* no media has been set up: the start loop is empty, then :1361 dereferences nil *)
+              (* no media has been set up: the start loop is empty, then setuppedTransport.Protocol
+                 dereferences nil *)
               HPanic
           | Some p =>
-            if proto_eqb p UDP && start_fails (smedias s) then HOk s2 sBad EFatal else
+            (* server_session.go (after ba05e77): the medias are started before the state changes; when a
+               start fails the started ones are stopped, the writer is destroyed, 400 + error, and the
+               session is still in PreRecord *)
+            if proto_eqb p UDP && start_fails (smedias s) then HOk (upd_writer s false) sBad EFatal else
             match p with
             | UDP => HOk (upd_timer s2 true) sOK (verdict_err r)
             | _ => HOk (upd_pin s2 (Some c)) sOK ESwTcp
